@@ -233,6 +233,12 @@ class SymReal:
         return C.cur().branch(self.t != 0)
 
     def __hash__(self):
+        # opt sym_hash: every symbolic number hashes alike, so dict/set lookups fall through to
+        # __eq__ (a solver-decided fork).  A symbolic key never meets a LITERAL float key this way
+        # (different hash): coincidences of a symbolic number with a literal inside a hashed key
+        # are outside the claim (stated as the generic-position assumption of the harness)
+        if C.cur().opts.get("sym_hash"):
+            return 0x5B
         raise Concretize("hash of symbolic number")
 
     # --- float protocol bits the code uses --------------------------------
